@@ -2,5 +2,5 @@ INIT Init
 NEXT Next
 CONSTANTS
   MaxSize = 8
-INVARIANTS Exact CompleteIffNone Emit
+INVARIANTS Exact CompleteIffNone IntervalsAgree Emit
 CHECK_DEADLOCK FALSE
